@@ -2,6 +2,8 @@
 // Exhaustive (rows, threads) grid for the slicing logic + seeded value runs; see DESIGN.md section 3.
 #include "lib.hpp"
 
+// the k-means labelling kernel itself (not in clustering.h, but an external symbol of clustering.c): called directly when present
+extern "C" void getLabels_(matrix *m, matrix *centroids, uivector *labels, int nthreads) __attribute__((weak));
 enum Kern { K_MTMV = 0, K_MTVM, K_DIST_E, K_DIST_SE, K_DIST_M, K_DIST_C, K_COND_E, K_COND_SE, K_COND_M, K_COND_C,
             K_KMEANS, K_KMPP, K_MDC, K_MAXDIS, K_MAXDISF, K_COUNT };
 static const char *kern_name[] = {"MT_MatrixDVectorDotProduct", "MT_DVectorMatrixDotProduct", "CalculateDistance/EUCLIDEAN", "CalculateDistance/SQUARE_EUCLIDEAN",
@@ -22,8 +24,8 @@ struct Ctx {
   // results
   Mat ref_m, got_m;
   std::vector<double> ref_v, got_v;
-  std::vector<size_t> ref_u, got_u;
-  Mat ref_c, got_c;
+  std::vector<size_t> ref_u, got_u, got_lab;   // got_lab: labels from a direct call of the labelling kernel on (data, returned centroids), output pre-filled with a sentinel
+  Mat ref_c, got_c, lab_c;   // lab_c: the centroids handed to the direct labelling call
   int phase;  // 0 = reference, 1 = multithreaded
   uint32_t rng_seed;
 };
@@ -92,6 +94,13 @@ static void call_kernel(void *arg) {
       KMeans(m, (size_t)c.other, 2 + (c.rng_seed & 1), lab, cen, nth);  // deterministic initialisers (MDC / MaxDis)
       (mt ? c.got_u : c.ref_u) = from_uivector(lab);
       (mt ? c.got_c : c.ref_c) = from_matrix(cen);
+      if (mt && getLabels_) {
+        // centroids of the harness's own choosing (some of the objects themselves, slightly displaced), not the ones k-means returned:
+        // a labelling defect can make k-means collapse to one cluster, for which every labelling is right
+        c.lab_c.clear(); for (int k = 0; k < c.other; k++) { std::vector<double> q = c.A[(size_t)((uint64_t)(k + 1) * 2654435761u % (uint64_t)c.rows)]; for (size_t j = 0; j < q.size(); j++) q[j] *= 1.0 + 0.01 * (double)((k + (int)j) % 3); c.lab_c.push_back(q); }
+        matrix *cc = to_matrix(c.lab_c, c.cols); uivector *l2; NewUIVector(&l2, m->row); for (size_t i = 0; i < l2->size; i++) l2->data[i] = 999999;
+        getLabels_(m, cc, l2, (int)nth); c.got_lab = from_uivector(l2); DelUIVector(&l2); DelMatrix(&cc);
+      }
       DelMatrix(&cen); DelUIVector(&lab); DelMatrix(&m);
       break;
     }
@@ -176,6 +185,7 @@ struct HMt : Harness {
     if (kern == K_MDC || kern == K_MAXDIS || kern == K_MAXDISF) other = (int)wr.range(1, rows > 1 ? rows : 1);  // selection size
     if (p.get("mode") == "grid" && (kern == K_MDC || kern == K_MAXDIS || kern == K_MAXDISF) && other > 4) other = 1 + other % 4;  // the slicing logic under test does not depend on the selection size
     p.seti("other", other);
+    if (p.get("mode") == "value" && kern >= K_COND_E) { if (wr.chance(0.3)) p.setd("unit_exp", wr.uniform(-6.0, 4.0)); if (wr.chance(0.2)) p.seti("near_dup", 1); }   // condensed distances, k-means, selections
     p.setu("data.seed", wr.next() >> 4);
     p.seti("machine.nproc", threads);  // detected count == requested count: one knob for all kernels
     return p;
@@ -202,6 +212,11 @@ struct HMt : Harness {
     if (c.kern == K_MTVM) { c.v.resize(c.rows); for (double &x : c.v) x = dr.uniform(-10, 10); }
     if (selection) {  // general position: distinct well separated points, positive coordinates for cosine
       for (auto &r : c.A) for (double &x : r) x = dr.uniform(0.5, 100.0);
+    }
+    if (p.has("unit_exp") || p.geti("near_dup", 0)) {   // value mode: data in another unit, some rows nearly (not exactly) duplicated
+      Prng vr(p.getu("data.seed") ^ 0x77aa55ULL, PURPOSE_WORKLOAD);
+      if (p.geti("near_dup", 0) && c.rows >= 2) { int nd = 1 + (int)vr.below((uint64_t)c.rows / 2 + 1); for (int d = 0; d < nd; d++) { size_t a = vr.below(c.rows), b = vr.below(c.rows); if (a == b) continue; c.A[a] = c.A[b]; for (double &v : c.A[a]) v += vr.uniform(-4e-4, 4e-4); } o.counters["probe.near_duplicate_rows"]++; }
+      double u = pow(10.0, p.getd("unit_exp", 0.0)); if (u != 1.0) { for (auto &r : c.A) for (double &v : r) v *= u; o.counters[u < 1 ? "probe.small_unit" : "probe.large_unit"]++; }
     }
 
     sim_cfg sc; std::vector<sim_switch> rs;
@@ -289,6 +304,20 @@ struct HMt : Harness {
           if (c.got_c.size() != c.ref_c.size()) o.fail("shape", "KMeans: centroid count differs across thread counts");
           else for (size_t i = 0; i < c.got_c.size() && !o.violation; i++) cmpv(c.got_c[i], c.ref_c[i], "centroid");
           for (size_t l : c.got_u) if (l >= (size_t)c.other) o.fail("label-range", "KMeans: label out of range");
+          // the labelling kernel against its definition: every object gets the index of a nearest centroid (long double; ties skipped),
+          // and every cell of the sentinel-filled output was written by some worker
+          if (!o.violation && !c.got_lab.empty()) {
+            o.counters["probe.labelling_kernel_checked"]++;
+            if (getenv("HMT_DEBUG")) { fprintf(stderr, "labels:"); for (size_t l : c.got_lab) fprintf(stderr, " %zu", l); fprintf(stderr, "\nA[0][0]=%g cen0[0]=%g ncen=%zu\n", c.A[0][0], c.lab_c[0][0], c.lab_c.size()); }
+            for (size_t i = 0; i < c.got_lab.size() && !o.violation; i++) {
+              size_t l = c.got_lab[i];
+              if (l >= c.lab_c.size()) { char m[200]; snprintf(m, sizeof m, "k-means labelling: object %zu left at %zu by %d threads (no worker wrote it, or out of range)", i, l, c.threads); o.fail("row-not-processed", m); break; }
+              long double best = INFINITY, second = INFINITY; size_t bi = 0;
+              for (size_t k = 0; k < c.lab_c.size(); k++) { long double d = ld_dist(c.A[i], c.lab_c[k], EUCLIDEAN); if (d < best) { second = best; best = d; bi = k; } else if (d < second) second = d; }
+              if (second - best <= 1e-12L * (1 + second)) { o.counters["skipped.label_tie"]++; continue; }
+              if (l != bi) { char m[300]; snprintf(m, sizeof m, "k-means labelling with %d threads: object %zu labelled %zu (distance %.6Lg) but centroid %zu is nearer (%.6Lg)", c.threads, i, l, ld_dist(c.A[i], c.lab_c[l], EUCLIDEAN), bi, best); o.fail("label-not-nearest", m); }
+            }
+          }
           hash_mat(h, c.got_c);
         } else {
           if (c.got_u.size() != (size_t)c.other) o.fail("selection-count", std::string(kern_name[c.kern]) + ": wrong number of selected objects");
